@@ -464,8 +464,9 @@ def check_spawn_attributes(ctx):
     ctx.check('C07.P1', isinstance(fv, dict) and fv.get('k') == 'var', st.name, 'spawn:flags-not-a-variable', st.where(sf[0]),
               'the flags handed to posix_spawnattr_setflags are the accumulated variable (%s)' % dstr(fv))
     name = fv.get('n') if isinstance(fv, dict) else None
-    ors = [e for e in st.events('asg') if is_var(name or '?')(e['l'])]
-    bad = [e for e in ors if e['op'] not in ('|=',) or not isinstance(const_value(e.get('r')), int)]
+    # (the declaration with a constant initialiser is the first "gain": `short flags = POSIX_SPAWN_SETSIGMASK;`)
+    ors = [e for e in st.stores() if is_var(name or '?')(e['l'])]
+    bad = [e for e in ors if not (e['op'] == '|=' or e.get('from_decl')) or not isinstance(const_value(e.get('r')), int)]
     ctx.check('C07.P1', not bad, st.name, 'spawn:flags-rewritten', st.where(bad[0]) if bad else st.loc,
               'the flag variable only ever gains constant bits (no assignment / &= that could drop one)')
 
@@ -480,7 +481,9 @@ def check_spawn_attributes(ctx):
     for bit, nm, worlds in ((2, 'POSIX_SPAWN_SETPGROUP', (False,)), (8, 'POSIX_SPAWN_SETSIGMASK', (False, True))):
         sets = [e for e in ors if isinstance(const_value(e.get('r')), int) and const_value(e['r']) & bit]
         for w in worlds:
-            r = st.find_path(None, lambda x: x is sf[0], from_succ=st.entry, is_blocker=lambda x: any(x is y for y in sets), edge_ok=console(w))
+            def is_set(x):
+                return any(x is y or (y.get('from_decl') and x.get('k') == 'decl' and x.get('_b') == y.get('_b') and x.get('_i') == y.get('_i')) for y in sets)
+            r = st.find_path(None, lambda x: x is sf[0], from_succ=st.entry, is_blocker=is_set, edge_ok=console(w))
             ctx.check('C07.P1', bool(sets) and r is None, st.name, 'spawn:%s-missing:%s' % (nm, 'console' if w else 'piped'), st.where(sf[0]),
                       '%s is set on every path to posix_spawnattr_setflags for a %s child' % (nm, 'console' if w else 'non-console'),
                       witness=None if r is None else {'blocks': r[0]})
